@@ -77,10 +77,16 @@ fn input(with_names: bool, with_producers: Option<&[(&str, &[(&str, &str)])]>, w
     if with_dwarf {
         // real DWARF (one subprogram + one line row per instruction of `f`), synthesized with gimli::write
         let l = crate::dwarf::layout(&wasm).expect("layout");
-        return crate::dwarf::attach(wasm, &l, 4, false, false).expect("attach").0;
+        let mut wasm = crate::dwarf::attach(wasm, &l, 4, false, false).expect("attach").0;
+        // ... and DWARF sections that walrus does not convert: accelerator tables and the like, which index the sections it rewrites or drops
+        for n in STALE_IF_KEPT { wasm.push(0); wasm.push((1 + n.len() + 4) as u8); wasm.push(n.len() as u8); wasm.extend_from_slice(n.as_bytes()); wasm.extend_from_slice(&[0x28, 0, 0, 0]); }
+        return wasm;
     }
     wasm
 }
+
+/// DWARF sections that only make sense next to the very `.debug_info` / `.debug_str` they were built for
+const STALE_IF_KEPT: &[&str] = &[".debug_names", ".debug_gnu_pubnames", ".debug_gnu_pubtypes", ".debug_pubnames", ".debug_sup", ".debug_aranges"];
 
 pub fn config(_args: &[String]) -> Result<Value> {
     std::panic::set_hook(Box::new(|_| {}));
@@ -114,6 +120,7 @@ pub fn config(_args: &[String]) -> Result<Value> {
                                 if has("custom:producers") != gen_prod { return Ok(Some(format!("producers section present={} but generate_producers_section={gen_prod}", has("custom:producers")))); }
                                 if s.iter().any(|x| x.starts_with("custom:.debug")) && !gen_dwarf { return Ok(Some("DWARF section carried over although DWARF generation is off".into())); }
                                 if with_dwarf && gen_dwarf && !(has("custom:.debug_info") && has("custom:.debug_line")) { return Ok(Some("DWARF generation is on and the input has DWARF, but the output has no .debug_info / .debug_line".into())); }
+                                if let Some(k) = STALE_IF_KEPT.iter().find(|n| has(&format!("custom:{n}"))) { return Ok(Some(format!("the DWARF section {k} of the input, which walrus does not convert, is carried into the output (it indexes sections that were rewritten or dropped)"))); }
                                 if !with_dwarf && s.iter().any(|x| x.starts_with("custom:.debug")) { return Ok(Some("DWARF sections appear although the input has none".into())); }
                                 if with_dwarf && gen_dwarf {
                                     // the same switch values set in the other order give the same DWARF (what is written depends on the values,
